@@ -58,13 +58,14 @@ func (p plPkt) srcID() string {
 // plExt is the Go-side bookkeeping of the packet world.
 type plExt struct {
 	Pkts     []plPkt
+	Rev      []plPkt           // packets sent B -> A on the ordered channel
 	Commits  [2]int            // commits performed per chain since the root
 	AckSeen  map[string]string // C11: first acknowledgement commitment seen per "dest/seq"
 	ClosedAt int               // C14: number of ops after which the ordered source end was seen CLOSED (0 = not)
 }
 
 func (e *plExt) Clone() ksim.Ext {
-	n := &plExt{Pkts: e.Pkts[:len(e.Pkts):len(e.Pkts)], Commits: e.Commits, ClosedAt: e.ClosedAt}
+	n := &plExt{Pkts: e.Pkts[:len(e.Pkts):len(e.Pkts)], Rev: e.Rev[:len(e.Rev):len(e.Rev)], Commits: e.Commits, ClosedAt: e.ClosedAt}
 	if e.AckSeen != nil {
 		n.AckSeen = make(map[string]string, len(e.AckSeen))
 		for k, v := range e.AckSeen {
@@ -88,7 +89,10 @@ func (e *plExt) KeyBytes() []byte {
 			out = binary.BigEndian.AppendUint64(out, p.V1.TimeoutTimestamp)
 		}
 	}
-	out = append(out, byte(e.Commits[0]), byte(e.Commits[1]), byte(e.ClosedAt))
+	for _, p := range e.Rev {
+		out = binary.BigEndian.AppendUint64(out, p.Seq)
+	}
+	out = append(out, byte(e.Commits[0]), byte(e.Commits[1]), byte(e.ClosedAt), byte(len(e.Rev)))
 	return out
 }
 
@@ -105,6 +109,11 @@ type PL struct {
 	Close      bool     // ChanCloseInit on B + TimeoutOnClose
 	CrossProto bool     // cross-protocol forgeries (v1 packet relayed as v2 and vice versa)
 	DataKinds  []string // payload kinds to send: "ok", "fail", "async"
+	AsyncAck   bool     // application-level asynchronous acknowledgement writes (also premature / repeated)
+	Reverse    int      // number of packets B may send back to A on the ordered channel (C14)
+	Sync       bool     // macro step: commit(X) immediately followed by the honest client update on the other chain (replaces commit/update ops)
+	CommitOn   []int    // chains that may commit (nil = both)
+	UpdateOn   []int    // chains whose client may be updated (nil = both)
 	TimeoutIn  []int    // candidate timeouts, in destination blocks after the destination's current height (0 = none/far)
 
 	link *ksim.Link
@@ -184,12 +193,19 @@ func (s *PL) Ops(w *ksim.World) []ksim.Op {
 		}
 	}
 	for ch := 0; ch < 2; ch++ {
-		if e.Commits[ch] < s.MaxCommits {
-			ops = append(ops, ksim.Op{K: "commit", A: []int{ch}})
+		if e.Commits[ch] < s.MaxCommits && has(s.CommitOn, ch) {
+			if s.Sync {
+				ops = append(ops, ksim.Op{K: "sync", A: []int{ch}})
+			} else {
+				ops = append(ops, ksim.Op{K: "commit", A: []int{ch}})
+			}
 		}
 	}
 	// client updates: dst 1 learns chain 0, dst 0 learns chain 1
-	for dst := 0; dst < 2; dst++ {
+	for dst := 0; dst < 2 && !s.Sync; dst++ {
+		if !has(s.UpdateOn, dst) {
+			continue
+		}
 		src := 1 - dst
 		cid := s.clientOn(dst)
 		latest := int64(w.ClientLatest(dst, cid).RevisionHeight)
@@ -229,7 +245,32 @@ func (s *PL) Ops(w *ksim.World) []ksim.Op {
 	if s.Close {
 		ops = append(ops, ksim.Op{K: "closeB", A: []int{rV1U}}, ksim.Op{K: "closeB", A: []int{rV1O}})
 	}
+	if s.AsyncAck {
+		for i := range e.Pkts {
+			ops = append(ops, ksim.Op{K: "wack", A: []int{i, 0}}, ksim.Op{K: "wack", A: []int{i, 1}})
+		}
+	}
+	if len(e.Rev) < s.Reverse {
+		ops = append(ops, ksim.Op{K: "rsend"})
+	}
+	for i := range e.Rev {
+		for _, ph := range s.proofHeights(w, 0) {
+			ops = append(ops, ksim.Op{K: "rrecv", A: []int{i, ph}})
+		}
+	}
 	return ops
+}
+
+func has(set []int, v int) bool {
+	if set == nil {
+		return true
+	}
+	for _, x := range set {
+		if x == v {
+			return true
+		}
+	}
+	return false
 }
 
 func (s *PL) clientOn(chain int) string {
@@ -312,6 +353,16 @@ func (s *PL) apply(w *ksim.World, op ksim.Op) ksim.Result {
 		w.Commit(op.A[0], ksim.BlockStep)
 		e.Commits[op.A[0]]++
 		return ksim.Result{Class: ksim.OK}
+	case "sync":
+		ch := op.A[0]
+		w.Commit(ch, ksim.BlockStep)
+		e.Commits[ch]++
+		dst := 1 - ch
+		r := w.UpdateLatest(dst, s.clientOn(dst), ch)
+		if r.Class != ksim.OK {
+			return r // e.g. header from the future: the block is committed, the update has to wait
+		}
+		return ksim.Result{Class: ksim.OK}
 	case "update":
 		dst, h := op.A[0], int64(op.A[1])
 		src := 1 - dst
@@ -359,10 +410,31 @@ func (s *PL) apply(w *ksim.World, op ksim.Op) ksim.Result {
 	case "ack":
 		p := e.Pkts[op.A[0]]
 		ph := w.Height(1, int64(op.A[1]))
+		snap := w.SnapAt(1, int64(op.A[1]))
 		if p.isV2() {
-			return w.AckV2(0, 1, p.V2, s.v2Ack(p), ph)
+			ack := s.v2Ack(p)
+			if snap != nil {
+				stored := snap.Get("ibc", hostv2.PacketAcknowledgementKey(p.V2.DestinationClient, p.Seq))
+				for _, a := range asyncAcks {
+					cand := channeltypesv2.Acknowledgement{AppAcknowledgements: [][]byte{a}}
+					if string(channeltypesv2.CommitAcknowledgement(cand)) == string(stored) {
+						ack = cand
+					}
+				}
+			}
+			return w.AckV2(0, 1, p.V2, ack, ph)
 		}
-		return w.AckV1(0, 1, p.V1, s.v1Ack(p), ph)
+		ack := s.v1Ack(p)
+		if snap != nil {
+			stored := snap.Get("ibc", host.PacketAcknowledgementKey(p.V1.DestinationPort, p.V1.DestinationChannel, p.Seq))
+			for _, a := range asyncAcks {
+				cand := channeltypes.NewResultAcknowledgement(a).Acknowledgement()
+				if string(channeltypes.CommitAcknowledgement(cand)) == string(stored) {
+					ack = cand
+				}
+			}
+		}
+		return w.AckV1(0, 1, p.V1, ack, ph)
 	case "timeout":
 		p := e.Pkts[op.A[0]]
 		ph := w.Height(1, int64(op.A[1]))
@@ -377,6 +449,30 @@ func (s *PL) apply(w *ksim.World, op ksim.Op) ksim.Result {
 	case "closeB":
 		cp := s.chanFor(op.A[0])
 		return w.Tx(1, channeltypes.NewMsgChannelCloseInit(cp.PortB, cp.ChanB, ksim.Signer))
+	case "wack":
+		// the destination application writes an acknowledgement through its asynchronous path
+		p := e.Pkts[op.A[0]]
+		k := w.W.Chains[1].App.IBCKeeper
+		if p.isV2() {
+			ack := channeltypesv2.Acknowledgement{AppAcknowledgements: [][]byte{asyncAcks[op.A[1]]}}
+			return w.Do(1, func(ctx sdk.Context) error {
+				return k.ChannelKeeperV2.WriteAcknowledgement(ctx, p.V2.DestinationClient, p.Seq, ack)
+			})
+		}
+		return w.Do(1, func(ctx sdk.Context) error {
+			return k.ChannelKeeper.WriteAcknowledgement(ctx, p.V1, channeltypes.NewResultAcknowledgement(asyncAcks[op.A[1]]))
+		})
+	case "rsend":
+		cp := s.chO
+		th := clienttypes.NewHeight(1, 1_000_000)
+		seq, r := w.SendV1(1, cp.PortB, cp.ChanB, th, 0, ibcmock.MockPacketData)
+		if r.Class == ksim.OK {
+			e.Rev = append(e.Rev, plPkt{Route: rV1O, Seq: seq, Data: string(ibcmock.MockPacketData), V1: channeltypes.NewPacket(ibcmock.MockPacketData, seq, cp.PortB, cp.ChanB, cp.PortA, cp.ChanA, th, 0)})
+		}
+		return r
+	case "rrecv":
+		p := e.Rev[op.A[0]]
+		return w.RecvV1(0, 1, p.V1, w.Height(1, int64(op.A[1])))
 	}
 	panic("unknown op " + op.K)
 }
@@ -399,6 +495,19 @@ func noopClassV2Recv(r ksim.Result) ksim.Result {
 		}
 	}
 	return r
+}
+
+var asyncAcks = [][]byte{[]byte("async-ack-1"), []byte("async-ack-2")}
+
+// ackCommitment returns the acknowledgement commitment stored on chain B for p ("" if none).
+func (s *PL) ackCommitment(w *ksim.World, p plPkt) string {
+	ctx := w.CS[1].Ctx
+	k := w.W.Chains[1].App.IBCKeeper
+	if p.isV2() {
+		return string(k.ChannelKeeperV2.GetPacketAcknowledgement(ctx, p.V2.DestinationClient, p.Seq))
+	}
+	bz, _ := k.ChannelKeeper.GetPacketAcknowledgement(ctx, p.V1.DestinationPort, p.V1.DestinationChannel, p.Seq)
+	return string(bz)
 }
 
 // v1Ack is the acknowledgement the mock application writes for p.
@@ -472,3 +581,11 @@ func storesUnchanged(pre, post *ksim.World, chain int) (bool, []string) {
 
 var _ = sdk.AccAddress{}
 var _ = fmt.Sprint
+
+// macro turns a scenario into its macro-step variant (sync = commit + honest update, fresh proofs only).
+func macro(sc *PL) *PL {
+	sc.Sync = true
+	sc.Stale = false
+	sc.PastUpdate = false
+	return sc
+}
